@@ -89,8 +89,8 @@ def record_everything(chk, quick, rng):
         cfgs = [
             {"sim": "ns2", "shape": (8, 10), "forcing": True, "free_stream": True, "w": 2},
             {"sim": "ns2", "shape": (8, 8), "forcing": False, "free_stream": False, "w": 0},
-            {"sim": "ns2", "shape": (8, 9), "forcing": True, "free_stream": False, "w": 1},
-            {"sim": "ns2", "shape": (9, 8), "forcing": False, "free_stream": True, "w": 2},
+            {"sim": "ns2", "shape": (8, 9), "forcing": True, "free_stream": False, "w": 3},
+            {"sim": "ns2", "shape": (9, 8), "forcing": False, "free_stream": True, "w": 4},
             {"sim": "ns3", "shape": (6, 7, 6), "forcing": False, "free_stream": True, "filter": "off", "w": 2},
             {"sim": "ns3", "shape": (6, 7, 8), "forcing": True, "free_stream": True, "filter": "multiplicative", "order": 2, "w": 2},
             {"sim": "ns3", "shape": (6, 6, 7), "forcing": False, "free_stream": False, "filter": "convolution", "order": 1, "w": 1, "solver": "fast_diagonalisation"},
@@ -240,17 +240,23 @@ def coupled_thread_independence(chk, quick, rng):
             chk.violation({"kind": "threads_coupled", "dim": 3}, f"VirtualBoundaryForcing 3-D (reset={reset}) on a field that already holds forcing: results differ between thread counts {counts}")
     # (b) whole time steps of the simulators
     cfgs = [("ns2", dict(grid_size=(12, 14), x_range=1.75, kinematic_viscosity=0.02, with_forcing=True, with_free_stream_flow=True, flow_density=2.0)),
-            ("ns3", dict(grid_size=(8, 9, 10), x_range=1.25, kinematic_viscosity=0.02, with_forcing=True, with_free_stream_flow=True, filter_vorticity=True)),
+            ("ns2", dict(grid_size=(40, 48), x_range=1.5, kinematic_viscosity=0.02, with_forcing=True, penalty_zone_width=6)),
+            ("ns3", dict(grid_size=(8, 9, 10), x_range=1.25, kinematic_viscosity=0.02, with_forcing=True, with_free_stream_flow=True, filter_vorticity=True,
+                         penalty_zone_width=3)),
             ("pt", dict(grid_dim=2, grid_size=(9, 11), x_range=1.1, kinematic_viscosity=0.05, field_type="scalar"))]
     if not quick:
         cfgs.append(("ns3fd", dict(grid_size=(8, 9, 10), x_range=1.25, kinematic_viscosity=0.02, poisson_solver_type="fast_diagonalisation")))
     for name, kw in cfgs:
+        if "penalty_zone_width" in kw and kw["penalty_zone_width"] > 3:
+            pass
         cls = {"ns2": sps.UnboundedNavierStokesFlowSimulator2D, "ns3": sps.UnboundedNavierStokesFlowSimulator3D, "ns3fd": sps.UnboundedNavierStokesFlowSimulator3D,
                "pt": sps.PassiveTransportFlowSimulator}[name]
         D = len(kw["grid_size"])
         shape = tuple(kw["grid_size"])
         om0 = rng.normal(size=(shape if name in ("ns2", "pt") else (3,) + shape))
         m = 3
+        if kw.get("penalty_zone_width", 2) > 3:
+            m = 1                       # vorticity inside the damping zone: the zone must do some work
         mask = np.zeros(shape)
         mask[tuple(slice(m, -m) for _ in range(D))] = 1
         om0 = om0 * mask
